@@ -351,13 +351,32 @@ pub fn run_top(op: &TOp, sc_confs: &[crate::exec::Conf], st: &mut Stats, input_c
                     .at(ci, &rep.log),
             );
         }
+        let concurrent = rep.log.callers >= 2;
+        for (k, rk) in results.iter().enumerate().skip(1) {
+            if !concurrent {
+                break;
+            }
+            for which in &rk.operand_changed {
+                vs.push(
+                    Violation::new("operand_changed", name, input_class, format!("operand `{which}` differs after the call (concurrent caller #{k})"))
+                        .at(ci, &rep.log),
+                );
+            }
+        }
         match &expected {
             Some(exp) => {
-                if let Err(why) = compare(&r0.out, exp) {
-                    vs.push(
-                        Violation::new("wrong_result", name, input_class, format!("cpu={:?}: {why}", conf.cpu))
-                            .at(ci, &rep.log),
-                    );
+                for (k, rk) in results.iter().enumerate() {
+                    if k > 0 && !concurrent {
+                        break;
+                    }
+                    if let Err(why) = compare(&rk.out, exp) {
+                        let who = if concurrent { format!(" (caller #{k} of {} concurrent callers)", results.len()) } else { String::new() };
+                        vs.push(
+                            Violation::new("wrong_result", name, input_class, format!("cpu={:?}{who}: {why}", conf.cpu))
+                                .at(ci, &rep.log),
+                        );
+                        break;
+                    }
                 }
             }
             None => {
@@ -367,13 +386,25 @@ pub fn run_top(op: &TOp, sc_confs: &[crate::exec::Conf], st: &mut Stats, input_c
                             .at(ci, &rep.log),
                     );
                 }
-                if results.len() > 1 && results[1].out != r0.out {
+                for rk in results.iter().skip(1) {
+                    if !concurrent {
+                        break;
+                    }
+                    if let Err(why) = check_random_valid(op, &rk.out) {
+                        vs.push(
+                            Violation::new("invalid_output", name, input_class, format!("cpu={:?} (a concurrent caller): {why}", conf.cpu))
+                                .at(ci, &rep.log),
+                        );
+                        break;
+                    }
+                }
+                if results.iter().skip(1).any(|rk| rk.out != r0.out) {
                     vs.push(
                         Violation::new(
                             "not_repeatable",
                             name,
                             input_class,
-                            format!("cpu={:?}: two calls with equal arguments in one execution differ", conf.cpu),
+                            format!("cpu={:?}: two calls with equal arguments in one execution ({}) differ", conf.cpu, if concurrent { "concurrent callers" } else { "one after the other" }),
                         )
                         .at(ci, &rep.log),
                     );
